@@ -41,10 +41,12 @@
       EVALUATES [doc_ok] (and the size half of [doc_positions_okb]) and answers
       [PContractBroken] when it fails; the totality theorems hold unconditionally because of that
       check, and the correspondence check reports [PContractBroken] as an oracle failure on every
-      case (so the gap is tested on every run, not assumed).  The conditional statement is
-      [C03_validate_establishes_doc_ok_partial]: IF validation establishes [doc_ok]
-      ([validate_establishes_doc_ok], the open obligation, spelled out below) and the text is
-      below 2^24 lines / 2^32 columns, THEN every request gets a response.
+      case (so the gap is tested on every run, not assumed).  Half of the obligation IS proved
+      ([C03_validated_type_conditions_composite]: type conditions of an accepted text are composite,
+      so the executor's panic("unexpected fragment type") is unreachable); the other half (typing of
+      the collected fields, [validate_establishes_typing], spelled out below) is the explicit
+      premise of [C03_validate_establishes_doc_ok_partial] / [C03_pipeline_response_partial]: with
+      it, every request with evaluable conditions gets a response.
     - [doc_ok] contains C01's hypothesis that every @skip/@include condition has a boolean value.
       A validated request can violate it (a nullable Boolean variable with a default, given null:
       the directive's argument cannot be coerced, the selection is left out with an error).  Such
@@ -58,7 +60,7 @@
 From Coq Require Import List NArith.
 From ApiFu Require Import Base.Sexp.
 From ApiFu Require Syn.Ast Syn.ParserModel Syn.FrontEnd Vld.Ast Vld.ValidatorModel Vld.ProofsCommon Exe.ExecData Exe.ExecModel Exe.ExecSpec Exe.ExecHyps.
-From ApiFu Require Import Pipe.PipelineModel Pipe.PipelineProofs Pipe.Convert Pipe.Compose Pipe.PositionsProofs Pipe.ComposeProofs.
+From ApiFu Require Import Pipe.PipelineModel Pipe.PipelineProofs Pipe.Convert Pipe.Compose Pipe.SchemaAgree Pipe.PositionsProofs Pipe.ComposeProofs Pipe.CondsProofs.
 Import ListNotations.
 
 (** ** the composed model, from bytes *)
@@ -148,23 +150,52 @@ Theorem C03_pipeline_order_independent : forall pi1 pi2 VS F ES bs opname VE W,
                        pipeline_order pi2 VS F ES bs opname VE W = PInvalid e2 l2).
 Proof. exact pipeline_order_independent. Qed.
 
-(** ** the open obligation, and what follows from it.
-    [validate_establishes_doc_ok pi VS F ES] :=
+(** ** the open obligation [validate accepted => doc_ok], half of it proved.
+
+    [doc_ok ES D E fuel n] = [conds_ok ES D E] && [doc_typed ES D E]:
+    - [conds_ok]: every @skip/@include condition has a boolean value and every type condition (of a
+      fragment definition or an inline fragment, at any depth) names a composite type — so that
+      doesFragmentTypeApply never reaches panic("unexpected fragment type");
+    - [doc_typed]: whatever object type is reached, every collected field is defined on it and has
+      an output type (so that completeValue never reaches panic("unexpected field type")).
+    PROVED: a text accepted by the composed front half satisfies [conds_ok], for every selectable
+    operation, given evaluable conditions and schema encodings that agree (C04's rule theorem for
+    5.5.1 across [vld_of_syn] / [exe_of_syn] / [schemas_agree]). *)
+Theorem C03_validated_type_conditions_composite : forall pi VS F ES bs d opname o E,
+  Vld.ProofsCommon.order_ok pi -> schemas_agree VS ES = true ->
+  parse_and_validate_order pi VS F bs = FAccepted d ->
+  Exe.ExecModel.get_operation (exe_of_syn d) opname = Exe.ExecModel.GOp o ->
+  Exe.ExecHyps.dirs_evaluable (Exe.ExecData.doc_of (exe_of_syn d) o) E = true ->
+  Exe.ExecSpec.conds_ok ES (Exe.ExecData.doc_of (exe_of_syn d) o) E = true.
+Proof. exact accepted_conds_ok. Qed.
+
+Theorem C03_composite_condition_never_unexpected : forall ES c ot,
+  Exe.ExecSpec.cond_ok ES c = true -> Exe.ExecModel.type_applies ES ot c <> Exe.ExecModel.ApPanic.
+Proof. exact cond_ok_no_panic. Qed.
+
+(** NOT PROVED — the remaining obligation (C04's [validate_ok_doc_ok], typing half):
+    [validate_establishes_typing pi VS F ES] :=
       forall bs d opname o E,
         parse_and_validate_order pi VS F bs = FAccepted d ->
         get_operation (exe_of_syn d) opname = GOp o ->
         let D := doc_of (exe_of_syn d) o in
-        dirs_evaluable D E = true -> doc_ok ES D E (default_fuel D) (default_fuel D) = true
-    (for schemas [VS], [ES] that describe one schema).  NOT proved: it is C04's
-    [validate_ok_doc_ok]; the composed model checks its conclusion on every run instead.
-    [text_positions_small bs]: every selection of the parsed text starts below line 2^24 and
-    column 2^32 (a bound on the size of the request text). *)
-Theorem C03_validate_establishes_doc_ok_partial : forall pi, Vld.ProofsCommon.order_ok pi -> forall VS F ES bs opname VE W,
-  Exe.ExecHyps.type_names_okb ES = true ->
-  validate_establishes_doc_ok pi VS F ES -> text_positions_small bs ->
+        dirs_evaluable D E = true -> doc_typed ES D E = true.
+    The composed model evaluates [doc_ok] on every run instead (outcome [PContractBroken CDocOk],
+    an oracle failure of the check).  With it, [validate_establishes_doc_ok] follows ... *)
+Theorem C03_validate_establishes_doc_ok_partial : forall pi VS F ES,
+  Vld.ProofsCommon.order_ok pi -> schemas_agree VS ES = true ->
+  validate_establishes_typing pi VS F ES -> validate_establishes_doc_ok pi VS F ES.
+Proof. exact doc_ok_from_typing. Qed.
+
+(** ... and every request with evaluable conditions whose text keeps positions below line 2^24 /
+    column 2^32 ([text_positions_small]) gets a response: no broken contract is left *)
+Theorem C03_pipeline_response_partial : forall pi VS F ES bs opname VE W,
+  Vld.ProofsCommon.order_ok pi ->
+  Exe.ExecHyps.type_names_okb ES = true -> schemas_agree VS ES = true ->
+  validate_establishes_typing pi VS F ES -> text_positions_small bs ->
   request_evaluable pi VS F bs opname VE ->
   is_response (pipeline_order pi VS F ES bs opname VE W) = true.
-Proof. exact pipeline_response_if_obligations. Qed.
+Proof. exact pipeline_response_if_typing. Qed.
 
 (** ** the glue of graphql.go over observed stage verdicts (round 1; still what covers Subscribe,
     the cost rule, argument coercion and everything else outside the composed model) *)
@@ -197,7 +228,10 @@ Print Assumptions C03_response_serialisable.
 Print Assumptions C03_data_or_errors.
 Print Assumptions C03_parsed_positions_distinct.
 Print Assumptions C03_pipeline_order_independent.
+Print Assumptions C03_validated_type_conditions_composite.
+Print Assumptions C03_composite_condition_never_unexpected.
 Print Assumptions C03_validate_establishes_doc_ok_partial.
+Print Assumptions C03_pipeline_response_partial.
 Print Assumptions C03_execute_total_partial.
 Print Assumptions C03_execute_data_or_errors_partial.
 Print Assumptions C03_subscribe_total_partial.
